@@ -19,6 +19,7 @@ import (
 )
 
 func split(run *ev.Run, caseID string, w *mon.SessWorld, probs []string) {
+	probs = mon.Quarantine(probs)
 	var real []string
 	for _, p := range probs {
 		switch {
